@@ -325,6 +325,13 @@ CHECKS["C15"]["text"] += (" Histories include evaluate() of several tasks with n
                           "not depend on which same-named metric of another task ran before).")
 CHECKS["C18"]["text"] += (" Call sequences: consecutive resampling / metrics calls whose estimate time bases share length and end "
                           "points but not the interior time stamps.")
+CHECKS["C18"]["text"] += (" The count-level functions (compute_num_freqs, compute_num_true_positives, compute_accuracy, "
+                          "compute_err_score), resample_multipitch, midi_to_chroma and metrics are REGENERATED from "
+                          "mir_eval/multipitch.py on every run (translator part `multipitch` -> lean/MirGen/Multipitch.lean) and "
+                          "Props/C18_Gen.lean proves each translated definition equal to the hand model for all inputs, so the "
+                          "identities above are theorems about the code as translated; suite gen_multipitch runs the translated "
+                          "definitions against the real functions (all count triples over {0..3} up to length 2/3, every length "
+                          "combination incl. NumPy broadcasting).")
 
 
 def main():
